@@ -261,8 +261,9 @@ def _prologue(fi: FuncInfo, pro, Sx: RuleResult, is_spline: bool):
                 search = (tg.id, v, s)
                 sides[tg.id] = "R"
             elif isinstance(v, ast.Call) and ast.unparse(v.func) == "torch.clamp" and v.args and isinstance(v.args[0], ast.Name) and v.args[0].id in sides:
-                lo = v.args[1] if len(v.args) > 1 else None
-                hi = v.args[2] if len(v.args) > 2 else None
+                kwc = {k.arg: k.value for k in v.keywords}
+                lo = v.args[1] if len(v.args) > 1 else kwc.get("min")
+                hi = v.args[2] if len(v.args) > 2 else kwc.get("max")
                 ok_lo = isinstance(lo, ast.Constant) and lo.value == 1
                 ok_hi = isinstance(hi, ast.BinOp) and isinstance(hi.op, ast.Sub) and isinstance(hi.left, ast.Name) and hi.left.id in nr_names \
                     and isinstance(hi.right, ast.Constant) and hi.right.value == 1
@@ -288,7 +289,7 @@ def _prologue(fi: FuncInfo, pro, Sx: RuleResult, is_spline: bool):
             e = e.func.value
         return ast.unparse(e)
     kw = {k.arg: ast.unparse(k.value) for k in call.keywords}
-    if a0 is not None and a1 is not None and roles.get(strip(a0)) == "x" and roles.get(strip(a1)) == "xq" and kw.get("right", "False") == "False" and kw.get("side", "left") == "left":
+    if a0 is not None and a1 is not None and roles.get(strip(a0)) == "x" and roles.get(strip(a1)) == "xq" and kw.get("right", "False") == "False" and kw.get("side", "'left'").strip("'\"") == "left":
         Sx.ok(fi.fq, "interval search: searchsorted(<knots>, <queries>, right=False)")
     else:
         Sx.bad(fi, st, "the interval search must be searchsorted(x, xq, right=False)")
